@@ -15,6 +15,28 @@ type deepSizer struct {
 	seen   map[unsafe.Pointer]bool
 	total  int
 	states int // objects of type meta.SearchState reached
+	byType map[string]int
+	// exclBounded leaves out the structures that have their own configured bound and
+	// their own invariant (lazy-DFA caches: I1, visited tables: I2)
+	exclBounded bool
+}
+
+func (d *deepSizer) add(t reflect.Type, n int) {
+	d.total += n
+	if d.byType != nil {
+		d.byType[t.String()] += n
+	}
+}
+
+// deepBreakdown is deepFootprint with the bytes attributed to the Go type that holds them.
+func deepBreakdown(exclBounded bool, roots ...any) (int, map[string]int) {
+	d := &deepSizer{seen: map[unsafe.Pointer]bool{}, byType: map[string]int{}, exclBounded: exclBounded}
+	for _, r := range roots {
+		if r != nil {
+			d.walk(reflect.ValueOf(r), 0)
+		}
+	}
+	return d.total, d.byType
 }
 
 func deepFootprint(roots ...any) int {
@@ -41,7 +63,7 @@ func (d *deepSizer) walk(v reflect.Value, depth int) {
 			return
 		}
 		d.seen[p] = true
-		d.total += int(v.Type().Elem().Size())
+		d.add(v.Type(), int(v.Type().Elem().Size()))
 		if v.Type().Elem().Name() == "SearchState" {
 			d.states++
 		}
@@ -51,7 +73,17 @@ func (d *deepSizer) walk(v reflect.Value, depth int) {
 			d.walk(v.Elem(), depth+1)
 		}
 	case reflect.Struct:
+		tn := ""
+		if d.exclBounded {
+			tn = v.Type().String()
+			if tn == "lazy.DFACache" {
+				return
+			}
+		}
 		for i := 0; i < v.NumField(); i++ {
+			if tn == "nfa.BacktrackerState" && v.Type().Field(i).Name == "Visited" {
+				continue
+			}
 			d.walk(v.Field(i), depth+1)
 		}
 	case reflect.Slice:
@@ -65,7 +97,7 @@ func (d *deepSizer) walk(v reflect.Value, depth int) {
 		if v.Cap() > 0 {
 			d.seen[p] = true
 		}
-		d.total += v.Cap() * int(v.Type().Elem().Size())
+		d.add(v.Type(), v.Cap()*int(v.Type().Elem().Size()))
 		if hasPointers(v.Type().Elem()) {
 			for i := 0; i < v.Len(); i++ {
 				d.walk(v.Index(i), depth+1)
@@ -86,7 +118,7 @@ func (d *deepSizer) walk(v reflect.Value, depth int) {
 			return
 		}
 		d.seen[p] = true
-		d.total += v.Len() * int(v.Type().Key().Size()+v.Type().Elem().Size()+8)
+		d.add(v.Type(), v.Len()*int(v.Type().Key().Size()+v.Type().Elem().Size()+8))
 		if hasPointers(v.Type().Elem()) || hasPointers(v.Type().Key()) {
 			it := v.MapRange()
 			for it.Next() {
@@ -95,7 +127,7 @@ func (d *deepSizer) walk(v reflect.Value, depth int) {
 			}
 		}
 	case reflect.String:
-		d.total += v.Len()
+		d.add(v.Type(), v.Len())
 	}
 }
 
